@@ -15,6 +15,7 @@ fn main() {
         Some("edges") => edges::main(&args[1..]),
         Some("calls") => calls::main(&args[1..]),
         Some("replay-paths") => edges::replay_paths(&args[1..]),
+        Some("guards") => edges::guards(&args[1..]),
         Some("reuse") => history::reuse(&args[1..]),
         Some("determinism") => history::determinism(&args[1..]),
         Some("gen-batch") => history::gen_batch(&args[1..]),
